@@ -3,8 +3,8 @@
 package mc
 
 import (
-	mckeeper "github.com/elys-network/elys/x/masterchef/keeper"
 	"fmt"
+	mckeeper "github.com/elys-network/elys/x/masterchef/keeper"
 	tiertypes "github.com/elys-network/elys/x/tier/types"
 	"sort"
 	"strings"
